@@ -12,6 +12,7 @@ from ..ref import quat as rq
 PROP = "C07"
 LEVEL = "exploration"
 SHARDS = {"quick": 2, "thorough": 16}
+THOROUGH_DEPTH = 15      # thorough tier = this many times the base thorough budget (VERIF_DEPTH overrides)
 TOL_CONV = 1e-13     # plain conversions: reassociation in the vectorised copy
 TOL_EST = 1e-11      # estimator copies (closed forms that cancel)
 DCM_METHODS = [("shepperd", {}), ("hughes", {}), ("chiaverini", {}), ("itzhack", {"version": 1}), ("itzhack", {"version": 2}),
@@ -24,6 +25,7 @@ EST_ROUTES = ["Tilt/quaternion", "Tilt/angles", "Tilt/rotmat", "Tilt/acc-only", 
               "QUEST", "Davenport", "FLAE/symbolic", "FLAE/eig", "FLAE/newton", "TRIAD/rotmat/NED", "TRIAD/quaternion/NED",
               "TRIAD/rotmat/ENU", "TRIAD/quaternion/ENU", "AQUA/am/NED", "AQUA/am/ENU", "AQUA/acc/NED", "OLEQ/NED", "OLEQ/ENU"]
 ROUTES = CONV_ROUTES + METRIC_ROUTES + EST_ROUTES
+BRANCH_CUT_ROUTES = {"Tilt/quaternion", "Tilt/angles", "Tilt/acc-only", "am2angles", "to_angles", "AQUA/am/NED", "AQUA/am/ENU", "AQUA/acc/NED", "FQA", "SAAM/quaternion"}
 REGIONS = {"rows:generic": 30, "rows:special": 30, "rows:one": 30, "metric:generic": 30, "metric:close": 30, "metric:exact": 30, "est:generic": 30, "est:one": 30, "est:scaled": 30,
            "rows:integer": 20, "est:integer": 20}
 PROBES = [("ahrs.common.quaternion", "QuaternionArray.to_DCM"), ("ahrs.common.quaternion", "QuaternionArray.from_DCM"),
@@ -156,6 +158,16 @@ def cmp_rows(ctx, route, batch_out, singles, tol, what="batch row = single item"
             return
         scale = max(1.0, float(np.abs(s).max())) if s.size else 1.0
         d = float(np.abs(b - s).max() / scale) if np.all(np.isfinite(s)) and np.all(np.isfinite(b)) else (0.0 if np.array_equal(np.isnan(s), np.isnan(b)) else float("inf"))
+        if d > tol and route in BRANCH_CUT_ROUTES and np.all(np.isfinite(s)) and np.all(np.isfinite(b)):
+            # outputs of the atan2-based estimators sit on a branch cut when a heading is exactly +-pi (whole-number samples): +pi and -pi,
+            # q and -q are the same attitude; the two entry points may legitimately land on different sides
+            if s.shape == (4,):
+                d = min(d, float(np.abs(b + s).max()))
+            elif s.shape == (3,):
+                w = np.abs((b - s + np.pi) % (2 * np.pi) - np.pi)
+                d = min(d, float(np.minimum(w, np.abs(b - s)).max()))
+            if d <= tol:
+                ctx.note("rows equal as attitudes across the +-pi branch cut (sign of q / heading +-pi)")
         if d >= worst:
             worst, detail = d, {"row": i, "batch": b, "single": s}
     ctx.le(what, worst, tol, detail, route=route)
@@ -264,12 +276,18 @@ def check_est(case, ctx):
                  what="one-row batch = single item")
         o1 = call(lambda: batch(a[0].copy(), m[0].copy()))
         o2 = call(lambda: single(a[0].copy(), m[0].copy()))
-        if ctx.returned(o1, clause="no-exception (one-sample constructor)", route=name) and ctx.returned(o2, route=name):
+        if not o1.ok and not o2.ok and o1.exc_name == o2.exc_name:
+            ctx.note("one-sample constructor and estimate() raise the same %s: equal behaviour, not judged here" % o1.exc_name)
+        elif ctx.returned(o1, clause="no-exception (one-sample constructor)", route=name) and ctx.returned(o2, route=name):
             x, y = np.asarray(o1.value), np.asarray(o2.value, dtype=float)
             if ctx.ok("one-sample constructor result has the single-item shape", x.shape == y.shape and x.dtype != object,
                       {"ctor": list(x.shape), "estimate": list(y.shape)}, route=name):
-                ctx.le("one-sample constructor honours its options (= estimate with the same options)",
-                       float(np.abs(np.asarray(x, float) - y).max()), TOL_EST, {"ctor": x, "estimate": y}, route=name)
+                xf = np.asarray(x, float)
+                if np.isnan(xf).any() or np.isnan(y).any():      # NaN at a singular pose (C03's business): equal behaviour = NaN in the same places
+                    dd = 0.0 if np.array_equal(np.isnan(xf), np.isnan(y)) and np.allclose(xf[~np.isnan(xf)], y[~np.isnan(y)], rtol=0, atol=TOL_EST) else float("inf")
+                else:
+                    dd = float(np.abs(xf - y).max())
+                ctx.le("one-sample constructor honours its options (= estimate with the same options)", dd, TOL_EST, {"ctor": x, "estimate": y}, route=name)
     for fr in ("NED", "ENU"):
         name = "OLEQ/" + fr
 
